@@ -152,6 +152,34 @@ func runC02(r *Run, rng *Rng, thorough bool) {
 				tamperCase(r, cls+"splice", known, v, cb.k.id)
 				tamperCase(r, cls+"splice", known, v, ok2.id)
 			}
+			// the payload re-framed: the same claims bytes behind a tag / inside a wrapper / with another head encoding,
+			// protected header and signature kept (the bytes differ, so it must not decode-and-verify)
+			{
+				var reframed [][]byte
+				for _, t := range []uint64{61, 55799, 24, 18, 0, 1, 22, 23, 1 << 16, 1 << 32} {
+					reframed = append(reframed, append(headFor(6, t), pl1...))
+				}
+				reframed = append(reframed, nBstr(pl1).Bytes(), append([]byte{0x81}, pl1...), append([]byte{0x00}, pl1...),
+					append(append([]byte{}, pl1...), 0xf6), append([]byte{0xd8, 0x3d, 0xd8, 0x3d}, pl1...))
+				if pn, _, err := parseNode(pl1, 0); err == nil && pn.Kind == kMap {
+					for _, w := range []int{1, 2, 4, 8} {
+						q := pn.clone()
+						q.W = w
+						reframed = append(reframed, q.Bytes())
+					}
+					q := pn.clone()
+					q.Indef = true
+					reframed = append(reframed, q.Bytes())
+					if len(pn.Pairs) > 1 {
+						q = pn.clone()
+						q.Pairs[0], q.Pairs[1] = q.Pairs[1], q.Pairs[0]
+						reframed = append(reframed, q.Bytes())
+					}
+				}
+				for _, pl := range reframed {
+					tamperCase(r, cls+"payload-reframed", known, mk(p1, pl, s1), cb.k.id)
+				}
+			}
 			// the protected header re-serialised: same map, other bytes (non-shortest heads), original signature
 			if pn, _, err := parseNode(p1, 0); err == nil && pn.Kind == kMap && len(pn.Pairs) == 1 {
 				for _, w := range []int{1, 2, 4, 8} {
